@@ -433,7 +433,9 @@ def run(ctx):
   if ctx.quick:
     deep = [[('CreateStudy', 's', 'REC'), ('CreateTrial', 's', 'succeeded', 0.75), ('SuggestTrials', 's', 'a', 1)],
             [('CreateStudy', 's', 'REC'), ('SuggestTrials', 's', 'a', 2), ('CompleteTrial', 's', 1, 'final'), ('CompleteTrial', 's', 2, 'infeasible'),
-             ('SuggestTrials', 's', 'b', 1)]]
+             ('SuggestTrials', 's', 'b', 1)],
+            # an id above the largest stored one is in the policy's set of incorporated ids once trials 2 and 3 are deleted
+            [('CreateStudy', 's', 'REC'), ('SuggestTrials', 's', 'a', 1), ('CreateTrial', 's', 'succeeded', 0.75), ('SuggestTrials', 's', 'a', 2), ('CompleteTrial', 's', 1, 'final')]]
     plans = [(dict(svc_base, backends=['ram'], mode='rebuilt'), 5),
              (dict(svc_base, backends=['ram'], mode='rebuilt', starts=deep), 4),
              (dict(svc_base, backends=['ram'], mode='stateless'), 4),
